@@ -1,5 +1,6 @@
 import CoapVerif.Model.Parse
 /- Line-protocol driver for the codec properties (C03 …).  -/
+-- DRIVER-OPS: parse => Coap.Driver.parseStep
 namespace Coap.Driver
 
 def showOpts (os : List (Nat × Bytes)) : String :=
